@@ -674,4 +674,5 @@ static void ma_gen(Ctx& ctx) {
     }
 }
 
+VK_FRESH_THREADS;
 VK_MAIN("C07")
